@@ -448,7 +448,7 @@ def rule_r3(rep, program: Program):
 # ----------------------------------------------------------------------
 # R4
 def rule_r4(rep, program: Program):
-    r = rep.rule("R4", "storage siblings agree (shape, fill, dtype); multi-process implies memmap; memmaps cross the process boundary as paths", floor=5)
+    r = rep.rule("R4", "storage siblings agree (shape, fill, dtype); multi-process implies memmap; memmaps cross the process boundary as paths; one file per array", floor=8)
     for fname in ("_init_stats", "_init_traces"):
         f = program.func("samplers", fname)
         ifs = [n for n in ast.walk(f.node) if isinstance(n, ast.If) and norm(n.test) == "use_memmap"]
@@ -472,6 +472,54 @@ def rule_r4(rep, program: Program):
             r.violate(PROP, f"{fname}:fill:{norm(fill_m)}!={norm(fill_i)}", "initial fill value differs between in-memory and memory-mapped storage", node=b, file=f.file)
         if norm(dt_m) != norm(dt_i):
             r.violate(PROP, f"{fname}:dtype:{norm(dt_m)}!={norm(dt_i)}", "dtype differs between in-memory and memory-mapped storage", node=b, file=f.file)
+    # one file per array: the file name is a function of every index of the array it backs
+    prefixes = {}
+    for fname in ("_init_stats", "_init_traces"):
+        f = program.func("samplers", fname)
+        for st in ast.walk(f.node):
+            if not (isinstance(st, ast.Assign) and len(st.targets) == 1 and isinstance(st.targets[0], ast.Subscript)):
+                continue
+            gens = [c for c in ast.walk(st.value) if isinstance(c, ast.Call) and norm(c.func) == "_generate_memmap_filenames"]
+            if not gens:
+                continue
+            g = gens[0]
+            dest_keys = set()
+            t = st.targets[0]
+            while isinstance(t, ast.Subscript):
+                dest_keys |= {x.id for x in ast.walk(t.slice) if isinstance(x, ast.Name)}
+                t = t.value
+            if len(g.args) < 4:
+                raise AnalysisError(f"{fname}: _generate_memmap_filenames call with fewer than 4 arguments")
+            name_vars = {x.id for x in ast.walk(g.args[2]) if isinstance(x, ast.Name)}
+            prefixes[fname] = norm(g.args[1])
+            per_chain = norm(g.args[3]) in ("range(n_chain)", "list(range(n_chain))")
+            r.inst({"function": fname, "array indexed by": sorted(dest_keys), "file name built from": sorted(name_vars), "prefix": norm(g.args[1]), "one per chain": per_chain})
+            missing = dest_keys - name_vars
+            if missing:
+                r.violate(PROP, f"{fname}:memmap-name-misses:{sorted(missing)}", f"the memory-map file name in {fname} is built from {sorted(name_vars)} but the arrays are distinguished by {sorted(dest_keys)}: two arrays that differ only in {sorted(missing)} are backed by the same file and overwrite each other (in-memory storage keeps them apart)", node=g, file=f.file)
+            if not per_chain:
+                r.violate(PROP, f"{fname}:memmap-not-per-chain:{norm(g.args[3])[:30]}", "memory-mapped arrays are not created one per chain index", node=g, file=f.file)
+    if len(prefixes) != 2:
+        raise AnalysisError("memory-map file name construction not found in _init_stats / _init_traces")
+    if len(set(prefixes.values())) != 2:
+        r.violate(PROP, f"memmap-prefix-shared:{sorted(prefixes.values())}", "trace and statistics arrays use the same file-name prefix: a traced quantity and a statistic with the same key share a file", node=None, file=str(program.func("samplers", "_init_stats").file))
+    gm = program.func("samplers", "_generate_memmap_filenames")
+    rets = [n for n in ast.walk(gm.node) if isinstance(n, ast.Return)]
+    comp = rets[-1].value if rets else None
+    used = set()
+    if isinstance(comp, (ast.ListComp, ast.GeneratorExp)):
+        local_defs = {norm(a.targets[0]): {x.id for x in ast.walk(a.value) if isinstance(x, ast.Name)} for a in ast.walk(gm.node) if isinstance(a, ast.Assign)}
+        for x in ast.walk(comp.elt):
+            if isinstance(x, ast.Name):
+                used |= {x.id} | local_defs.get(x.id, set())
+        idx = {x.id for x in ast.walk(comp.generators[0].target) if isinstance(x, ast.Name)}
+        need = {gm.params[1], gm.params[2]} | idx
+        over = norm(comp.generators[0].iter) == gm.params[3]
+    else:
+        need, idx, over = {"?"}, set(), False
+    r.inst({"_generate_memmap_filenames uses": sorted(used & (need | idx))})
+    if not need <= used or not over:
+        r.violate(PROP, f"_generate_memmap_filenames:name-ignores:{sorted(need - used)}", "generated file names do not depend on prefix, key and chain index: distinct arrays share a file", node=gm.node, file=gm.file)
     onm = program.func("samplers", "_open_new_memmap")
     fills = [n for n in ast.walk(onm.node) if isinstance(n, ast.Assign) and isinstance(n.targets[0], ast.Subscript) and norm(n.targets[0].slice) in (":", "...", "slice(None, None, None)") and norm(n.value) == onm.params[2]]
     r.inst({"_open_new_memmap fill": bool(fills)})
